@@ -250,6 +250,8 @@ theorem acceptedBy_add (b : Batch) (o : Out) : acceptedBy (.add b) o = okList b 
 theorem removedBy_next (id : Bytes) (o : Out) : removedBy (.next id) o = batchList o := by cases o <;> rfl
 theorem removedBy_crashNext (id : Bytes) (o : Out) : removedBy (.crashNext true id) o = batchList o := by cases o <;> rfl
 theorem removedBy_qnext (o : Out) : removedBy .qnext o = batchList o := by cases o <;> rfl
+theorem acceptedBy_submitCtx (c : Ctx) (id : Bytes) (b : Batch) (o : Out) : acceptedBy (.submitCtx c id b) o = okList b o := by cases o <;> rfl
+theorem removedBy_nextCtx (c : Ctx) (id : Bytes) (o : Out) : removedBy (.nextCtx c id) o = batchList o := by cases o <;> rfl
 
 /-- the shape of one step: a primitive transition to `stepCore` (the state before the process stops,
 if it does), then a reload exactly for the operations that restart -/
@@ -273,6 +275,16 @@ theorem step_core (cfg : Cfg) (s : St) (op : Op) :
     refine ⟨?_, by simp [step, stepCore, Op.reloads]⟩
     have ha : acceptedBy .qnext (step key cfg s .qnext).2 = [] := by cases (step key cfg s .qnext).2 <;> rfl
     rw [removedBy_qnext, ha]; exact nextBatchF_trans key cfg s
+  | submitCtx c id b =>
+    refine ⟨?_, by simp [step, stepCore, Op.reloads]⟩
+    have hr : removedBy (.submitCtx c id b) (step key cfg s (.submitCtx c id b)).2 = [] := by
+      cases (step key cfg s (.submitCtx c id b)).2 <;> rfl
+    rw [acceptedBy_submitCtx, hr]; exact submitF_trans key cfg s id b
+  | nextCtx c id =>
+    refine ⟨?_, by simp [step, stepCore, Op.reloads]⟩
+    have ha : acceptedBy (.nextCtx c id) (step key cfg s (.nextCtx c id)).2 = [] := by
+      cases (step key cfg s (.nextCtx c id)).2 <;> rfl
+    rw [removedBy_nextCtx, ha]; exact getNextF_trans key cfg s id
   | restart => exact ⟨by simp [acceptedBy, removedBy, stepCore]; exact .none, by simp [step, stepCore, Op.reloads]⟩
   | load => exact ⟨by simp [acceptedBy, removedBy, stepCore]; exact .none, by simp [step, stepCore, Op.reloads]⟩
   | restartMax n =>
@@ -484,6 +496,13 @@ theorem failDel_stepCore {cfg : Cfg} {s : St} (h : s.failDel = 0) {op : Op} (ho 
   | fail p d =>
     have : d = 0 := by simpa [Op.armsDelete] using ho
     simp [stepCore, this]
+  | submitCtx c id b =>
+    rcases submitF_cases key cfg s id b with ⟨o, h1, _⟩ | ⟨h1, _⟩ | ⟨h1, _⟩ <;> simp [stepCore, h1, putFailed, accept, h]
+  | nextCtx c id =>
+    rcases getNextF_cases key cfg s id with ⟨o, h1, _⟩ | ⟨b, r, h1, _⟩ | ⟨b, r, h1, _, hd⟩
+    · simp [stepCore, h1, h]
+    · simp [stepCore, h1, pop, h]
+    · omega
 
 theorem failDel_step {cfg : Cfg} {s : St} (h : s.failDel = 0) {op : Op} (ho : op.armsDelete = false) :
     (step key cfg s op).1.failDel = 0 := by
@@ -591,6 +610,10 @@ theorem override_stepCore {cfg : Cfg} {s : St} {op : Op} (ho : op.changesBound =
   | load => rfl
   | restartMax n => simp [Op.changesBound] at ho
   | fail p d => rfl
+  | submitCtx c id b =>
+    rcases submitF_cases key cfg s id b with ⟨o, h1, _⟩ | ⟨h1, _⟩ | ⟨h1, _⟩ <;> simp [stepCore, h1, putFailed, accept]
+  | nextCtx c id =>
+    rcases getNextF_cases key cfg s id with ⟨o, h1, _⟩ | ⟨b, r, h1, _⟩ | ⟨b, r, h1, _⟩ <;> simp [stepCore, h1, pop, popKeep]
 
 theorem B_step {cfg : Cfg} {s : St} (hj : J key cfg s) (h : B cfg s) (op : Op) (ho : op.armsDelete = false)
     (hc : op.changesBound = false) : B cfg (step key cfg s op).1 := by
@@ -775,6 +798,22 @@ theorem step_refines (cfg : Cfg) (s : St) (op : Op) (hp : op.plain = true) (hh :
     cases h : s.mem with
     | nil => exact ⟨by simp [h], by simp, hh⟩
     | cons b r => exact ⟨by simp [pop], by simp, ⟨hh.same, hh.nofp, hh.nofd⟩⟩
+  | submitCtx c id b =>
+    simp only [step, submitF_eq key cfg s id b hh.nofp, submit, astep, addBatch, hfull]
+    split
+    · exact ⟨rfl, rfl, hh⟩
+    · split
+      · exact ⟨rfl, rfl, hh⟩
+      · split
+        · exact ⟨rfl, rfl, hh⟩
+        · exact ⟨by simp [accept], rfl, ⟨hh.same, hh.nofp, hh.nofd⟩⟩
+  | nextCtx c id =>
+    simp only [step, getNextF_eq key cfg s id hh.nofd, getNext, astep, nextBatch]
+    split
+    · exact ⟨rfl, rfl, hh⟩
+    · cases h : s.mem with
+      | nil => exact ⟨by simp [h], by simp, hh⟩
+      | cons b r => exact ⟨by simp [pop], by simp, ⟨hh.same, hh.nofp, hh.nofd⟩⟩
   | restart => simp [Op.plain] at hp
   | load => simp [Op.plain] at hp
   | crashSubmit _ _ _ => simp [Op.plain] at hp
